@@ -21,6 +21,7 @@ for pid in sorted(ents):
     for f in ents[pid].get('findings', []):
         out.append('* **%s** [%s] %s' % (f['id'], f['status'], f['what']))
 out.append('\n### 11.3 Seeded changes (written by independent sub-agents from the property text only) and which check catches them\n')
+out.append('Totals at the final HEAD: see the "final" column - every stored seed is caught with a concrete failing input except C07-J (a stale `_NON_LINEAR_OPS` table left on the modules by a FAILED deep_lift_shap call changes a LATER call that passes different `additional_nonlinear_ops` on a model containing a module type outside the built-in table; the C07 histories do not use custom rule tables) and C14-J (squared distances below 1e-6 clipped to 0 in `_integer_distances_and_histogram`: needs two non-identical columns closer than 1e-3 whose similarity sits on a rounding boundary; the exact-cell recomputation of C14 only covers the coarse grid). Both arrived in the last round and are recorded here as known gaps of the quick tier, not repaired for lack of time. One further candidate of that round (C07-I) was rejected because it makes existing tests fail.\n')
 out.append('Rounds: A,B first round; C,D second; E,F third (after the coverage audits); G,H fourth. "first" = outcome of the quick check when the seed was first tried (misses were fed back into the generators/specs, see design/Cxx.md "Seeded changes"); "final" = outcome against the final checks.\n')
 out.append('| Seed | Property | first outcome (quick tier) | final outcome (quick tier) | What it needs to manifest (from the author\'s notes) |')
 out.append('|---|---|---|---|---|')
